@@ -108,6 +108,14 @@ def build_server():
                       ("raise_assert", AssertionError()), ("raise_lookup", LookupError()), ("raise_badstr", BadStr())):
         srv.register_tool(name, mk_raiser(exc), {"type": "object"})
 
+    async def awaits_cancelled_future(**kw):
+        # the tool waits for something that somebody else cancelled (a background task, a pooled connection): the
+        # CancelledError it gets is the *handler's* failure - the dispatching task itself is not being cancelled
+        fut = asyncio.get_running_loop().create_future()
+        fut.cancel()
+        return await fut
+    srv.register_tool("raise_cancelled_inner", awaits_cancelled_future, {"type": "object"})
+
     async def res_ok():
         return "content   with separators\n"
 
@@ -150,6 +158,12 @@ def build_server():
         return h
     for name, val in CUSTOM_RESULTS.items():
         ph.register_method(name, mk_result(val))
+
+    async def custom_awaits_cancelled(message, session_id):
+        fut = asyncio.get_running_loop().create_future()
+        fut.cancel()
+        await fut
+    ph.register_method("custom/raise_cancelled_inner", custom_awaits_cancelled)
     ph.register_method("custom/ok", custom_ok)
     ph.register_method("custom/raise", custom_raise)
     ph.register_method("notifications/custom-ok", custom_note)
@@ -163,9 +177,9 @@ CUSTOM_RESULTS = {"custom/result_none": None, "custom/result_empty": {}, "custom
                   "custom/result_false": False, "custom/result_str": "", "custom/result_nested_null": {"a": None, "b": [None]}}
 CUSTOM_RAISERS = ["custom/raise_noargs", "custom/raise_timeout", "custom/raise_assert", "custom/raise_intarg",
                   "custom/raise_twoargs", "custom/raise_keyerror", "custom/raise_unicode", "custom/raise_stopasync",
-                  "custom/raise_lookup", "custom/raise_badstr"]
+                  "custom/raise_lookup", "custom/raise_badstr", "custom/raise_cancelled_inner"]
 RAISING_TOOLS = {"raise_value", "raise_key", "raise_runtime", "raise_type", "raise_timeout", "raise_custom",
-                 "raise_unicode", "sync", "raise_noargs", "raise_assert", "raise_lookup", "raise_badstr"}
+                 "raise_unicode", "sync", "raise_noargs", "raise_assert", "raise_lookup", "raise_badstr", "raise_cancelled_inner"}
 GOOD_TOOLS = {"echo", "dict", "list", "none", "bytes", "obj", "caf\u00e9"}
 
 IDS = [0, -1, 1, 2**53, 2**63, "", "x", "123", "007", "id with space", "ü\U0001f600"]
@@ -410,8 +424,13 @@ def run(ctx):
                 r = await h.handle_message(msg, session_id=sid) if sess else await h.handle_message(msg)
                 outs.append((case, "ok", r))
             except BaseException as e:  # noqa
-                if isinstance(e, (KeyboardInterrupt, SystemExit, asyncio.CancelledError)):
+                if isinstance(e, (KeyboardInterrupt, SystemExit)):
                     raise
+                if isinstance(e, asyncio.CancelledError):
+                    t_ = asyncio.current_task()
+                    if t_ is not None and t_.cancelling():
+                        raise              # this harness task really is being cancelled
+                    t_.uncancel() if False else None
                 outs.append((case, "raised", e))
             if k % 200 == 0:
                 h.session_manager.clear_all_sessions()
@@ -447,8 +466,10 @@ def run(ctx):
                 ctx.record(case, shape="none" if resp is None else "resp", cls="note")
                 continue
             # request
-            if resp is None and case["method"].startswith("notifications/"):
-                # an id on a notification method: the statement does not say; a silent drop is accepted
+            if resp is None and case["method"] in ("notifications/initialized", "notifications/custom-ok",
+                                                   "notifications/custom-raise", "notifications/cancelled"):
+                # an id on a method that has a registered *notification* handler: the statement does not say; a silent drop
+                # is accepted (an unregistered notifications/... name with an id is an ordinary unknown method: -32601)
                 ctx.record(case, shape="none", cls="req:notification-name")
                 continue
             if resp is None:
